@@ -34,13 +34,16 @@ fn build(r: &mut Rng, c: &Value, accept: &net::Target, accept6: &Option<net::Tar
     let cmd = match g("cmd") { 9 => *r.pick(&[0u8, 4, 0x7f, 0xff]), x => x as u8 };
     let atyp = match g("atyp") { 9 => *r.pick(&[0u8, 2, 5, 0xff]), x => x as u8 };
     let mut target = if s("target") == "accept" { accept.addr } else { refuse };
-    if atyp == 4 && s("target") == "accept" { if let Some(t6) = accept6 { target = t6.addr; } }
+    // an IPv6 request reaches the IPv6 listener on ::1, or - as an IPv4-mapped address - the IPv4 listener
+    let mapped = atyp == 4 && r.chance(1, 3);
+    if atyp == 4 && s("target") == "accept" && !mapped { if let Some(t6) = accept6 { target = t6.addr; } }
     let mut addr: Vec<u8> = Vec::new();
     let mut dest_ip: Vec<u8> = Vec::new();
     match atyp {
         1 => { if let std::net::IpAddr::V4(a) = target.ip() { addr.extend_from_slice(&a.octets()); dest_ip = a.octets().to_vec(); } }
         4 => { // the accepting target listens on IPv4 only: an IPv6 request is a "refuse" destination unless ::1 is bound; use v4-mapped-free ::1
-               let a = std::net::Ipv6Addr::LOCALHOST; addr.extend_from_slice(&a.octets()); dest_ip = a.octets().to_vec(); }
+               let a = if mapped { std::net::Ipv4Addr::LOCALHOST.to_ipv6_mapped() } else { std::net::Ipv6Addr::LOCALHOST };
+               addr.extend_from_slice(&a.octets()); dest_ip = a.octets().to_vec(); }
         3 => { if g("namelen") > 0 { let name = "localhost"; addr.push(name.len() as u8); addr.extend_from_slice(name.as_bytes()); dest_ip = vec![]; } else { addr.push(0); } }
         _ => { addr.extend_from_slice(&[1, 2, 3, 4]); }
     }
